@@ -129,8 +129,17 @@ func (a *updatableAEAD) startKeyDropTimer(now monotime.Time) {
 	a.prevRcvAEADExpiry = now.Add(d)
 }
 
+// hkdfKeyUpdateLabel returns the label used to derive the next generation of traffic secrets,
+// see RFC 9001, section 6.1 and RFC 9369, section 3.3.2.
+func hkdfKeyUpdateLabel(v protocol.Version) string {
+	if v == protocol.Version2 {
+		return "quicv2 ku"
+	}
+	return "quic ku"
+}
+
 func (a *updatableAEAD) getNextTrafficSecret(hash crypto.Hash, ts []byte) []byte {
-	return hkdfExpandLabel(hash, ts, []byte{}, "quic ku", hash.Size())
+	return hkdfExpandLabel(hash, ts, []byte{}, hkdfKeyUpdateLabel(a.version), hash.Size())
 }
 
 // SetReadKey sets the read key.
